@@ -10,6 +10,15 @@ NOTE = ("Trusted: Lean 4.33 kernel; axioms propext/Classical.choice/Quot.sound o
         "model sfmodel), which is trusted together with gcc/ASan/glibc and x86-64 IEEE arithmetic. libsndfile is modelled, not verified.")
 
 CLAIMED = {
+    "C10": dict(
+        text="Proof (Lean 4): sf_format_check is transcribed case by case and proved equivalent — for every format word whose container and encoding the build "
+             "enumerates, every endianness word, ALL channel counts and ALL sample rates — to the model of sf_open(SFM_WRITE) written from psf_open_file and the 23 "
+             "container open routines (gate, header writer, codec dispatch, writers installed), and to the whole experiment (4 typed writes, close, temp residue, re-open as the "
+             "same container and encoding). The full statements are refuted with concrete witnesses and proved outside four known-finding classes (rate 0; CAF/ALAC > 8 channels; "
+             "OKI/VOX odd counts; IRCAM rates >= 2^31-64). The enumeration lists are extracted by execution each run and proved duplicate-free, well-formed, all simple formats writable, "
+             "every major with a usable subtype (kernel `decide`). Exhaustive correspondence on the complete 154 560-point grid and all enumeration indices ties the model to the code.",
+        technique="Lean 4 theorems over a hand-written model + exhaustive correspondence on the complete grid (lists extracted by execution)",
+        design_ref="DESIGN.md §7 C10"),
     "C20": dict(
         text="Proof (Lean 4): the G.711 tables the running library uses are extracted by execution on every run and proved equal (kernel `decide`) to the "
              "Recommendation's segment formulas; encode∘decode identity on all codes; the short entry point equals the definition on the whole 16-bit range. "
